@@ -385,9 +385,20 @@ def bits_to_target(bits):
     exponent = bits[-1]
     # the first three bytes are the coefficient in little endian
     coefficient = little_endian_to_int(bits[:-1])
+    # the top bit of the coefficient is a sign bit, not part of the number
+    negative = coefficient & 0x800000
+    coefficient &= 0x7FFFFF
     # the formula is:
     # coefficient * 256**(exponent-3)
-    return coefficient * 256 ** (exponent - 3)
+    if exponent <= 3:
+        target = coefficient >> 8 * (3 - exponent)
+    else:
+        target = coefficient << 8 * (exponent - 3)
+    if target and negative:
+        raise ValueError("bits encode a negative target")
+    if target >> 256:
+        raise ValueError("bits encode a target larger than 256 bits")
+    return target
 
 
 def target_to_bits(target):
